@@ -31,6 +31,11 @@ theorem registry_atomic :
     registryAddAtomic = true := by
   decide
 
+/-- the registry's mutex is used by registry.go only: the sections above are ALL its critical sections, and no caller can
+    hold the lock across a call that takes it again (a read lock is not re-entrant once a writer waits). -/
+theorem registry_mutex_private : registryMuPrivate = true := by
+  decide
+
 theorem safemap_atomic :
     safemapLockShape = [("Delete", true), ("ForEach", true), ("Get", true), ("Len", true), ("Set", true)] := by
   decide
